@@ -42,6 +42,31 @@ def run(R, job):
                 fails.append({"input": f"{how}: {ctx.describe(t)}", "observed": out, "expected": exp})
             if len(samples) < 3:
                 samples.append({"how": how, "out": out[:120]})
+        # other rendering paths: the display hook of `with tag:`, HTMLDocument, HTMLTextDocument (dependency head markup)
+        import sys
+        m2 = m + r.choice(["\\n", "\\d+", "\\1", "\\\\", "\\g<0>", ""])
+        saved_hook = sys.displayhook
+        try:
+            sys.displayhook = lambda v: None
+            t = core.Tag("div", _add_ws=False)
+            with t:
+                sys.displayhook(HTML(m2))
+                sys.displayhook(ctx.reprobj(m2))
+                sys.displayhook(core.Tag("span", _add_ws=False))
+        finally:
+            sys.displayhook = saved_hook
+        checked += 1
+        out = t.get_html_string()
+        if out != "<div>" + m2 + m2 + "<span></span></div>":
+            fails.append({"input": f"with div(): display HTML({m2!r}); display <object with _repr_html_ {m2!r}>; display span()", "observed": out, "expected": "<div>" + m2 + m2 + "<span></span></div>"})
+        dep = core.HTMLDependency("h", "1.0", head=HTML("<script>" + m2 + "</script>"))
+        checked += 2
+        out = core.HTMLTextDocument("<head>@@</head>", deps=[dep], deps_replace_pattern="@@").render()["html"]
+        if "<script>" + m2 + "</script>" not in out:
+            fails.append({"input": f"HTMLTextDocument with a dependency whose head is HTML('<script>{m2}</script>')", "observed": out[:300], "expected": "the head markup byte-for-byte"})
+        out = core.HTMLDocument(core.Tag("div", HTML(m2), dep)).render()["html"]
+        if "<script>" + m2 + "</script>" not in out or "<div>" + m2 + "</div>" not in out:
+            fails.append({"input": f"HTMLDocument(div(HTML({m2!r}), dependency with head script))", "observed": out[:400], "expected": "both byte-for-byte"})
         v, desc, leaves = expr(3)
         checked += 1
         any_html = any(isinstance(x, HTML) for x in leaves)
